@@ -3,7 +3,7 @@ use emmylua_parser::{
     LuaTokenKind, float_token_value, int_token_value,
 };
 
-use crate::{DiagnosticCode, LuaSignatureId, SemanticModel};
+use crate::{DiagnosticCode, EmmyrcLuaVersion, LuaSignatureId, SemanticModel};
 
 use super::{Checker, DiagnosticContext};
 
@@ -24,6 +24,8 @@ impl Checker for SyntaxErrorChecker {
             }
         }
 
+        let lenient_escapes =
+            semantic_model.get_emmyrc().runtime.version == EmmyrcLuaVersion::Lua51;
         let root = semantic_model.get_root();
         for node_or_token in root.syntax().descendants_with_tokens() {
             if let Some(token) = node_or_token.into_token() {
@@ -49,7 +51,7 @@ impl Checker for SyntaxErrorChecker {
                         }
                     }
                     LuaTokenKind::TkString => {
-                        if let Err(err) = check_normal_string_error(&token) {
+                        if let Err(err) = check_normal_string_error(&token, lenient_escapes) {
                             context.add_diagnostic(
                                 DiagnosticCode::SyntaxError,
                                 token.text_range(),
@@ -69,7 +71,10 @@ impl Checker for SyntaxErrorChecker {
 }
 
 // this function is like string_token_value, but optimize for performance
-fn check_normal_string_error(string_token: &LuaSyntaxToken) -> Result<(), String> {
+fn check_normal_string_error(
+    string_token: &LuaSyntaxToken,
+    lenient_escapes: bool,
+) -> Result<(), String> {
     let text = string_token.text();
     if text.len() < 2 {
         return Ok(());
@@ -108,30 +113,42 @@ fn check_normal_string_error(string_token: &LuaSyntaxToken) -> Result<(), String
                             }
                         }
                         'u' => {
-                            // Unicode escape sequence
-                            if let Some('{') = chars.next() {
-                                let unicode_hex =
-                                    chars.by_ref().take_while(|c| *c != '}').collect::<String>();
-                                if let Ok(code_point) = u32::from_str_radix(&unicode_hex, 16)
-                                    && std::char::from_u32(code_point).is_none()
-                                {
-                                    return Err(t!(
-                                        "Invalid unicode escape sequence '\\u{{%{unicode_hex}}}'",
-                                        unicode_hex = unicode_hex
-                                    )
-                                    .to_string());
-                                }
+                            // Unicode escape sequence: `\u{XXX}` with one or more hexadecimal
+                            // digits and a value below 2^31 (surrogates and values above 10FFFF
+                            // are encoded too, so they are not errors)
+                            let unicode_hex = if let Some('{') = chars.next() {
+                                chars.by_ref().take_while(|c| *c != '}').collect::<String>()
+                            } else {
+                                String::new()
+                            };
+                            let digits = unicode_hex.trim_start_matches('0');
+                            let valid = !unicode_hex.is_empty()
+                                && unicode_hex.chars().all(|c| c.is_ascii_hexdigit())
+                                && digits.len() <= 8
+                                && u32::from_str_radix(digits, 16).unwrap_or(0) <= 0x7FFF_FFFF;
+                            if !valid {
+                                return Err(t!(
+                                    "Invalid unicode escape sequence '\\u{{%{unicode_hex}}}'",
+                                    unicode_hex = unicode_hex
+                                )
+                                .to_string());
                             }
                         }
                         '0'..='9' => {
-                            // Decimal escape sequence
+                            // Decimal escape sequence: up to three digits, at most 255
+                            let mut dec = String::from(next_char);
                             for _ in 0..2 {
                                 if let Some(digit) = chars.peek() {
                                     if !digit.is_ascii_digit() {
                                         break;
                                     }
+                                    dec.push(*digit);
                                     chars.next();
                                 }
+                            }
+                            if dec.parse::<u8>().is_err() {
+                                return Err(t!("Invalid escape sequence '\\%{char}'", char = dec)
+                                    .to_string());
                             }
                         }
                         'z' => {
@@ -144,7 +161,15 @@ fn check_normal_string_error(string_token: &LuaSyntaxToken) -> Result<(), String
                             }
                         }
                         _ => {
-                            // donot check other escape sequence
+                            // Lua 5.1 keeps the character after an unknown escape; every later
+                            // version (and LuaJIT) rejects it
+                            if !lenient_escapes {
+                                return Err(t!(
+                                    "Invalid escape sequence '\\%{char}'",
+                                    char = next_char
+                                )
+                                .to_string());
+                            }
                         }
                     }
                 }
